@@ -83,7 +83,8 @@ fn t3<B: burn::tensor::backend::Backend>(t: Tensor<B, 3>) -> Vec<u64> {
 /// mean and SPD covariance of the library 2-D Gaussians, a pure function of `prop_seed`
 fn gauss2d_params(prop_seed: u64) -> ([f64; 2], [[f64; 2]; 2]) {
     let mut h = Sm64::new(prop_seed ^ 0x6a75_7373);
-    let (a, d) = (h.log_uniform(0.3, 3.0), h.log_uniform(0.3, 3.0));
+    // variances from 1e-5 upward: narrow targets make the NUTS step-size search go downward
+    let (a, d) = (h.log_uniform(1e-5, 3.0), h.log_uniform(1e-5, 3.0));
     let b = h.uniform(-0.8, 0.8) * (a * d).sqrt();
     ([h.uniform(-1.0, 1.0), h.uniform(-1.0, 1.0)], [[a, b], [b, d]])
 }
@@ -446,20 +447,29 @@ fn case(ctx: &Ctx, rep: &mut Report, case: u64, g: &mut Sm64, kind: Kind) {
         rep.inconclusive("different-seeds check skipped: no chain moved in this run");
     }
     if kind != Kind::Gibbs && moved {
-        let mut c2 = cfg.clone();
-        c2.seed = seed.wrapping_add(1);
-        rep.eval();
-        match run_once(&c2, false) {
-            Ok(o) if o != base => rep.held(),
-            Ok(_) => {
-                rep.violation(&format!("{sig} same-output-for-different-seeds"), mon, case, json!({"cfg": cj, "other_seed": c2.seed, "inits": cfg.inits,
-                    "output": base.iter().skip(3).take(40).map(|b| f64::from_bits(*b)).collect::<Vec<f64>>()}));
-                return;
-            }
-            Err(m) => {
-                let cls = if m.contains("overflow") { "overflow-panic" } else { "panic" };
-                rep.violation(&format!("{sig} {cls} seed_class=seed+1"), mon, case, json!({"cfg": cj, "panic": m}));
-                return;
+        // the neighbour seed and one structurally related seed (differing in the top bit, by a
+        // multiple of 2^62 or 2^32, or doubled): a seed derivation that loses bits maps these together
+        let related = [seed ^ (1u64 << 63), seed.wrapping_add(1u64 << 62), seed.wrapping_add(3u64 << 62), seed.wrapping_add(1u64 << 32), seed.rotate_left(1) | 1];
+        let mut pick = related[g.below(related.len())];
+        if pick == seed {
+            pick = seed.wrapping_add(2);
+        }
+        for (other, cls) in [(seed.wrapping_add(1), "seed+1"), (pick, "related seed")] {
+            let mut c2 = cfg.clone();
+            c2.seed = other;
+            rep.eval();
+            match run_once(&c2, false) {
+                Ok(o) if o != base => rep.held(),
+                Ok(_) => {
+                    rep.violation(&format!("{sig} same-output-for-different-seeds"), mon, case, json!({"cfg": cj, "other_seed": c2.seed, "relation": cls, "inits": cfg.inits,
+                        "output": base.iter().skip(3).take(40).map(|b| f64::from_bits(*b)).collect::<Vec<f64>>()}));
+                    return;
+                }
+                Err(m) => {
+                    let c = if m.contains("overflow") { "overflow-panic" } else { "panic" };
+                    rep.violation(&format!("{sig} {c} seed_class={cls}"), mon, case, json!({"cfg": cj, "panic": m}));
+                    return;
+                }
             }
         }
     }
@@ -583,16 +593,25 @@ fn rare_draw_case(ctx: &Ctx, rep: &mut Report, case: u64, g: &mut Sm64) {
 
 fn init_case(rep: &mut Report, case: u64, g: &mut Sm64) {
     let mon = "init";
-    let (n, d) = (g.range(0, 40), g.range(0, 12));
+    // mostly small requests; one in eight large (thousands of rows or hundreds of columns)
+    let (n, d) = match g.below(8) {
+        0 => (g.range(64, 256), g.range(64, 256)),
+        1 => (g.range(2000, 9000), g.range(1, 4)),
+        _ => (g.range(0, 40), g.range(0, 12)),
+    };
     let seed = match g.below(4) {
         0 => u64::MAX,
         1 => 0,
         _ => g.next_u64(),
     };
     rep.eval();
+    let threads = *g.choose(&[1usize, 2, 5, 16]);
+    rep.count(&format!("init_pool_threads[{threads}]"));
+    let pool = rayon::ThreadPoolBuilder::new().num_threads(threads).build().unwrap();
     let r = guard(|| {
         let a: Vec<Vec<f64>> = init_with_seed(n, d, seed);
-        let b: Vec<Vec<f64>> = init_with_seed(n, d, seed);
+        // the same call from inside a rayon pool of another size
+        let b: Vec<Vec<f64>> = pool.install(|| init_with_seed(n, d, seed));
         let c: Vec<Vec<f64>> = init_det(n, d);
         let c2: Vec<Vec<f64>> = init_det(n, d);
         let c42: Vec<Vec<f64>> = init_with_seed(n, d, 42);
